@@ -119,7 +119,16 @@ func runSolver(ctx context.Context, s solverSpec, file string, timeoutS int) sol
 	cmd.Stderr = &out
 	_ = cmd.Run()
 	res := solveResult{out: out.String(), backend: s.name, secs: time.Since(start).Seconds()}
-	first := strings.TrimSpace(strings.SplitN(res.out, "\n", 2)[0])
+	// the answer is the first output line that is not a solver warning
+	first := ""
+	for _, l := range strings.Split(res.out, "\n") {
+		l = strings.TrimSpace(l)
+		if l == "" || strings.HasPrefix(l, "WARNING") || strings.HasPrefix(l, "(warning") {
+			continue
+		}
+		first = l
+		break
+	}
 	switch first {
 	case "unsat", "sat", "unknown":
 		res.status = first
@@ -277,11 +286,13 @@ func (e *Engine) solveOne(rep *FuncReport, ob *Obligation, base string) {
 	}
 	var results []solveResult
 	decided := false
+	decidedStatus := ""
 	for range solvers {
 		res := <-ch
 		results = append(results, res)
 		if (res.status == "sat" || res.status == "unsat") && !decided {
 			decided = true
+			decidedStatus = res.status
 			ob.Backend = res.backend
 			ob.TimeS = res.secs
 			ob.Output = res.out
@@ -314,6 +325,9 @@ func (e *Engine) solveOne(rep *FuncReport, ob *Obligation, base string) {
 		var notes []string
 		for _, r := range results {
 			first := strings.TrimSpace(strings.SplitN(r.out, "\n", 2)[0])
+			if r.status == "error" {
+				first = strings.TrimSpace(r.out) // the whole output: an error is the machinery's to fix
+			}
 			if len(first) > 200 {
 				first = first[:200]
 			}
@@ -326,7 +340,7 @@ func (e *Engine) solveOne(rep *FuncReport, ob *Obligation, base string) {
 		// all back ends that answer must agree
 		for _, r := range results {
 			if (r.status == "sat" || r.status == "unsat") && r.backend != ob.Backend {
-				agree := (r.status == "sat") == (strings.HasPrefix(strings.TrimSpace(ob.Output), "sat"))
+				agree := r.status == decidedStatus
 				if !agree {
 					ob.Status = "engine-fault"
 					ob.FailNote = fmt.Sprintf("back ends disagree: %s says %s", r.backend, r.status)
